@@ -83,10 +83,10 @@ PROPS = {
     "C02": {
         "module": "BiscuitModel.Props.C02",
         "more_modules": ["BiscuitModel.Props.C02Convert", "BiscuitModel.Props.C02Normal"],
-        "streams": ["chain", "convert"],
+        "streams": ["chain", "convert", "symbols"],
         "level_text": "Lean 4 theorems: block_round_trip (Props/C02Convert, about Model/Convert - the model of format/convert.rs: EVERY block that passes the version gate and whose sets and maps are what BTreeSet / BTreeMap hold, with sets of one kind of element, is read back from the protobuf message token_block_to_proto_block writes for it as exactly that block: symbols, context, version, facts, rules with expressions and scopes, checks with their kinds, block scopes, public keys, external key; through term_rt / op_rt / rule_rt / check_rt and the operator, check-kind, scope-type and set-element tables regenerated from convert.rs and schema.rs on every run: unary_table, binary_table, check_kind_table, ffi_name_checked), reader_normal_form (Props/C02Normal: whatever message proto_block_to_token_block accepts - repeated set elements, repeated map keys, explicit default check kinds - the block it returns is written and read back as itself, so further serialization round trips change nothing), accepted_content_ok, mixed_set_refused (the witness that a set of two kinds of elements is written and then refused); wire_round_trip (decoding the protobuf encoding of ANY container - authority block, any number of blocks, third-party signatures, versions, root key id, either proof - gives the container back, for fields that fit their length prefixes; the decoder follows prost: any field order, last occurrence wins, repeated fields accumulate; built on varint_round_trip, decFields_fuel_irrel, decAll_fVarint / decAll_fBytes / decAll_repeated of Lemmas/WireDec; on every honest token of the chain stream the model decoder is run on the presented bytes and must give what prost gives); payloads_eq_spec and the gen_*_eq_spec family (each of the seven payload layouts regenerated from crypto/mod.rs equals the layout written from the Biscuit specification), unknown_signature_version_refused, new_token_verifies / append_verifies / seal_verifies and built_tokens_verify (every token produced by ANY history of build, append, append-third-party and seal operations, with any algorithms, verifies under the issuing root key - induction over the history, assuming only that a signature made with a secret verifies under its public key), the signature-version rule (sigVersion_third_party, _datalog33, _non_ed25519, _ed25519, _never_back, _le_one). Tie: every stage of every generated history must be accepted by Biscuit::from, from_base64 and UnverifiedBiscuit::from+verify, expose the same revocation ids / external keys / root key id / block count as the model, re-serialize to identical bytes, equal the model's own protobuf encoding byte for byte, and every signature in it must verify - with ed25519-dalek / p256 used directly, not through biscuit-auth - over the payload bytes the Lean model computes.",
         "level_note": "Scheme correctness is a hypothesis. The wire decoder is modelled for the container messages (Model/WireDec); for the block message the conversion between the decoded message and the block is modelled (Model/Convert, tied by the convert stream), prost's byte level of that message is not. PublicKey::from_proto is a parameter of the conversion model (the harness says which keys it refuses).",
-        "rule": "chain stream (see C01); for C02 the honest stages are the cases that matter: non-trivial = honest stage with at least one appended block. convert stream: corpus first, then generated schema::Block messages (valid for their declared version; with features above it; faulty: unset oneofs, enumeration numbers out of range, ffi names missing or superfluous, ill-typed sets, check kinds, scope types, duplicate or malformed keys, default symbols, versions out of range, third-party below 3.2), every fourth through the snapshot reader; non-trivial = refused, or at least one rule or check",
+        "rule": "symbols stream (see C12): every step of histories that mix Biscuit and UnverifiedBiscuit appends, in memory and reloaded; chain stream (see C01); for C02 the honest stages are the cases that matter: non-trivial = honest stage with at least one appended block. convert stream: corpus first, then generated schema::Block messages (valid for their declared version; with features above it; faulty: unset oneofs, enumeration numbers out of range, ffi names missing or superfluous, ill-typed sets, check kinds, scope types, duplicate or malformed keys, default symbols, versions out of range, third-party below 3.2), every fourth through the snapshot reader; non-trivial = refused, or at least one rule or check",
         "trusted_base": ["tools/extract.py (payload layouts, schema field numbers regenerated from crypto/mod.rs and schema.proto)", "harness/src/s_chain.rs (history generator, structured mutations, prost decoding of the wire message)", "harness/src/s_convert.rs (message generator, schema <-> JSON, error classes read from the messages)", "tools/extract.py gen_convert", "ed25519-dalek / p256 verifiers used independently of biscuit-auth to check real signatures over the model's payload bytes", "lean/Codec.lean, lean/Driver.lean"],
         "assumptions": ["EdDSA / ECDSA correctness"],
         "open_obligations": [],
@@ -1243,7 +1243,7 @@ def oracle_limits(case, impl):
     return None
 
 
-ORACLES = {("C19", "capi"): oracle_capi, ("C18", "macros"): oracle_macros, ("C09", "untrusted"): oracle_untrusted, ("C17", "keys"): oracle_keys, ("C20", "params"): oracle_params, ("C14", "print"): oracle_print, ("C13", "snapshot"): oracle_snapshot, ("C12", "symbols"): oracle_symbols, ("C10", "limits"): oracle_limits, ("C06", "expr"): oracle_expr, ("C03", "atten"): oracle_atten}
+ORACLES = {("C02", "symbols"): oracle_symbols, ("C19", "capi"): oracle_capi, ("C18", "macros"): oracle_macros, ("C09", "untrusted"): oracle_untrusted, ("C17", "keys"): oracle_keys, ("C20", "params"): oracle_params, ("C14", "print"): oracle_print, ("C13", "snapshot"): oracle_snapshot, ("C12", "symbols"): oracle_symbols, ("C10", "limits"): oracle_limits, ("C06", "expr"): oracle_expr, ("C03", "atten"): oracle_atten}
 
 
 def signature(d):
